@@ -592,7 +592,7 @@ func c19Required(c *Ctx, decls map[*types.Func]*ast.FuncDecl, info *types.Info) 
 				return true
 			}
 			cal := Callee(info, vcall)
-			if cal == nil || cal.Name() != "convertField" || len(vcall.Args) != 1 {
+			if cal == nil || cal != c.P.Func(pkgOpenAPI, "Generator.convertField") || len(vcall.Args) != 1 {
 				return true
 			}
 			fieldVar := types.ExprString(vcall.Args[0])
@@ -732,7 +732,7 @@ func c19ContainerRulesReached(c *Ctx, decls map[*types.Func]*ast.FuncDecl, info 
 	r := c.R
 	r.Rule("R19h", "repeated and map rules are applied whatever the element kind (no exit between the kind switch and the container rules)", 1)
 	for fn, decl := range decls {
-		if fn.Name() != "extractValidationConstraints" {
+		if fn != c.P.Func(pkgOpenAPI, "extractValidationConstraints") {
 			continue
 		}
 		var sw *ast.SwitchStmt
@@ -745,7 +745,7 @@ func c19ContainerRulesReached(c *Ctx, decls map[*types.Func]*ast.FuncDecl, info 
 					sw = x
 				}
 			case *ast.CallExpr:
-				if cal := Callee(info, x); cal != nil && (cal.Name() == "applyRepeatedConstraints" || cal.Name() == "applyMapConstraints") {
+				if cal := Callee(info, x); cal != nil && (cal == c.P.Func(pkgOpenAPI, "applyRepeatedConstraints") || cal == c.P.Func(pkgOpenAPI, "applyMapConstraints")) {
 					n++
 					if x.Pos() > last {
 						last = x.Pos()
